@@ -42,7 +42,7 @@ class C16(Check):
     real = ['rxsci.compression.z / zstd compress() and decompress() (current working tree)', 'zlib, zstandard (C libraries)', 'RxPY Subject/pipe']
     stubs = ['producer of the chunks', 'transport re-cutting / truncating the compressed bytes', 'final subscriber']
     assumptions = ['reference decoders (gzip module, zstandard stream reader) are trusted']
-    probe_names = ('concurrent_streams', 'one_chunk_inflates>1MiB', 'codec:gzip', 'codec:zstd', 'empty_list', 'empty_chunk_in', 'empty_segment', 'empty_segment_after_end', 'one_byte_segments',
+    probe_names = ('nested_same_operator', 'concurrent_streams', 'one_chunk_inflates>1MiB', 'codec:gzip', 'codec:zstd', 'empty_list', 'empty_chunk_in', 'empty_segment', 'empty_segment_after_end', 'one_byte_segments',
                    'incompressible', 'input>=64KiB', 'truncations_all_offsets', 'swept_all_single_cuts')
     quick_budget = 20.0
     quick_cap = 100000
@@ -61,6 +61,8 @@ class C16(Check):
             chunks.append({'kind': kind, 'n': size, 'seed': rng.randrange(1000)})
         case = {'codec': codec, 'chunks': chunks, 'cutseed': rng.randrange(1 << 30),
                 'truncs': rng.choice(['all', 'all', 'sample', 'none'])}
+        if not big and rng.random() < 0.2:
+            case['nested'] = rng.choice([codec, codec, 'gzip', 'zstd'])
         if not big and rng.random() < 0.25:
             case['concurrent'] = [[{'kind': rng.choice(['zeros', 'text', 'rand']), 'n': rng.choice([0, 1, 50, 300, 3000]), 'seed': rng.randrange(1000)}
                                    for _ in range(rng.choice([1, 2, 3]))] for _ in range(rng.choice([1, 1, 2]))]
@@ -168,6 +170,19 @@ class C16(Check):
                     if term_i is None or term_i[0] != 'completed' or b''.join(got_i) != b''.join(streams[i]):
                         out.add('concurrent-decompress', codec, {'stream': i, 'of': len(streams), 'terminal': repr(term_i)})
                         break
+        # the same (or the other) codec applied twice in ONE synchronous chain: the inner operator runs nested inside the
+        # outer operator's on_next
+        if not out.violations and case.get('nested') and len(plain) <= 200000:
+            mod2 = {'gzip': z, 'zstd': zstd}[case['nested']]
+            rng = random.Random(case['cutseed'] ^ 0x1234)
+            pieces2, t2 = collect(rx.from_(data).pipe(mod.compress(), mod2.compress()))
+            blob2 = b''.join(pieces2)
+            got2, term2, _ = drive(cut(blob2, gen_cuts(rng, len(blob2), [1, 2, len(blob2) - 1])),
+                                   rx.pipe(mod2.decompress(), mod.decompress()))
+            p['nested_same_operator'] += 1
+            if t2 is None or t2[0] != 'completed' or term2 is None or term2[0] != 'completed' or b''.join(got2) != plain:
+                out.add('nested', codec, {'inner': codec, 'outer': case['nested'], 'compress_terminal': repr(t2), 'decompress_terminal': repr(term2),
+                                          'got_len': len(b''.join(got2)), 'expected_len': len(plain)})
         out.steps = runs
         out.ticks = n
         out.digest = repr((len(blob), blob[:64].hex(), [v.to_json() for v in out.violations], runs))
